@@ -302,6 +302,26 @@ def gen_lists(ctx, rnd, out):
             for st in (None, 0, 5, -2):
                 out.append({"op": "enumerate", "s": s, "n": st or 0,
                             "src": "list(enumerate(%s%s))" % (ls, "" if st is None else ", %d" % st)})
+            # the consumers of iterables, over every ROUTE by which the same elements can arrive: tuple, dict keys
+            # (when distinct), and iterables that do not know their length (code point / byte iterators)
+            esc = "".join("\\x%02x" % v for v in s)
+            routes = [("tuple", "tuple(%s)" % ls), ("ords", '"%s".codepoint_ords()' % esc),
+                      ("bytes", 'b"%s".elems()' % esc), ("eords", '"%s".elem_ords()' % esc)]
+            if len(set(s)) == len(s):
+                routes.append(("keys", "{%s}" % ", ".join("%d: None" % v for v in s)))
+            for rname, rsrc in routes:
+                for st in (None, 0, 5, -2):
+                    out.append({"op": "enumerate", "s": s, "n": st or 0, "route": rname,
+                                "src": "list(enumerate(%s%s))" % (rsrc, "" if st is None else ", %d" % st)})
+                out.append({"op": "sorted", "s": s, "route": rname, "src": "sorted(%s)" % rsrc})
+                out.append({"op": "min", "s": s, "route": rname, "src": "min(%s)" % rsrc})
+                out.append({"op": "max", "s": s, "route": rname, "src": "max(%s)" % rsrc})
+                out.append({"op": "any", "s": s, "route": rname, "src": "any(%s)" % rsrc})
+                out.append({"op": "all", "s": s, "route": rname, "src": "all(%s)" % rsrc})
+                out.append({"op": "concat", "ty": "list", "s": s, "sub": [], "route": rname, "src": "list(%s)" % rsrc})
+                out.append({"op": "concat", "ty": "tuple", "s": s, "sub": [], "route": rname, "src": "tuple(%s)" % rsrc})
+                out.append({"op": "extend", "s": [7], "sub": s, "route": rname,
+                            "src": "(lambda l: [l.extend(%s), l][1])([7])" % rsrc})
             for k in (-1, 0, 1, 2, 3):
                 for ty in ("list", "tuple", "str", "bytes"):
                     if ty in ("str", "bytes"):
